@@ -4,6 +4,7 @@ import (
 	"bytes"
 	"context"
 	"fmt"
+	"math"
 	"strings"
 
 	"github.com/256dpi/lungo"
@@ -28,7 +29,7 @@ func init() {
 		Assumptions: []string{"ref.Match implements DESIGN.md 8.2 and is trusted inside the core domain", "laws need no reference"},
 		Batches:     func(tier string) int { return 16 },
 		Require: func(tier string) map[string]int64 {
-			return map[string]int64{"ref_asserted": 2000, "laws_checked": 5000, "driver_compared": 200, "nontrivial_filters": 100, "numeric_pairs_asserted": 100000}
+			return map[string]int64{"ref_asserted": 2000, "laws_checked": 5000, "driver_compared": 200, "nontrivial_filters": 100, "numeric_pairs_asserted": 100000, "directed_asserted": 1500}
 		},
 		Run: runC10,
 	})
@@ -84,6 +85,7 @@ func runC10(c *fw.Ctx) {
 	}
 	defer engine.Close()
 	c10NumericPairs(c)
+	c10Directed(c)
 	for q := 0; q < ncases; q++ {
 		idx := c.Batch*ncases + q
 		if c.Skip(idx) {
@@ -187,6 +189,112 @@ func c10NumericPairs(c *fw.Ctx) {
 			}
 		})
 	}
+}
+
+// c10Directed: three small exhaustive families.
+// (a) the $bits operators on negative and large integers of all three numeric
+// types against positions below and above 31 (sign extension), asserted
+// against the reference; (b) dotted paths whose numeric segment is not an
+// index of the array it meets but the name of a field of its embedded
+// documents, asserted against the reference; (c) $jsonSchema with properties
+// and patternProperties on the same member: every keyword is a constraint of
+// its own, so the schema must select exactly what the conjunction of the two
+// single-keyword schemas selects (reference-free law).
+func c10Directed(c *fw.Ctx) {
+	if c.Batch > 2 {
+		return
+	}
+	idx := 9200000 + c.Batch
+	if c.Skip(idx) {
+		return
+	}
+	c.Case(idx, nil, nil, func() {
+		c.Eval(1)
+		assert := func(d, f bson.D, what string) bool {
+			lr, lerr, _ := lungoMatch(d, f)
+			info := &ref.MatchInfo{Seen: map[string]int{}}
+			rr, rerr := ref.Match(d, f, info)
+			if rerr != nil || info.OutOfDomain {
+				c.Count("directed_out_of_domain", 1)
+				return true
+			}
+			c.Count("directed_asserted", 1)
+			w := map[string]string{"doc": gen.JSON(d), "filter": gen.JSON(f)}
+			if lerr != nil {
+				w["error"] = lerr.Error()
+				c.Violate("match:error-on-wellformed", "Match returned an error for a well-formed filter ("+what+"): "+lerr.Error(), w)
+				return false
+			}
+			if lr != rr {
+				c.Violate(orGeneric(c10KeyFor(d, f), "match:vs-ref"), fmt.Sprintf("Match=%v but MongoDB semantics (reference) give %v (%s)", lr, rr, what), w)
+				return false
+			}
+			return true
+		}
+		switch c.Batch {
+		case 0:
+			vals := []interface{}{int32(-1), int32(-5), int32(math.MinInt32), int32(5), int32(math.MaxInt32), int64(-1), int64(-6), int64(math.MinInt64), int64(1) << 40, int64(1)<<33 | 1, -1.0, -6.0, 5.0, float64(int64(1) << 35), -float64(int64(1) << 35)}
+			masks := []interface{}{bson.A{int32(0), int32(40)}, bson.A{int32(35)}, bson.A{int32(31)}, bson.A{int32(32), int32(63)}, bson.A{int32(0)}, int64(1) << 33, int32(255), int64(1)<<33 | 4, bson.A{int32(2), int32(33)}}
+			for _, v := range vals {
+				for _, m := range masks {
+					for _, op := range []string{"$bitsAllSet", "$bitsAnySet", "$bitsAllClear", "$bitsAnyClear"} {
+						for _, d := range []bson.D{{{Key: "a", Value: v}}, {{Key: "a", Value: bson.A{"s", v}}}} {
+							if !assert(d, bson.D{{Key: "a", Value: bson.D{{Key: op, Value: m}}}}, "bit test sweep") {
+								return
+							}
+						}
+					}
+				}
+			}
+		case 1:
+			docs := []bson.D{
+				{{Key: "s", Value: bson.A{bson.D{{Key: "2023", Value: int32(10)}}, bson.D{{Key: "2024", Value: int32(12)}}}}},
+				{{Key: "s", Value: bson.A{bson.D{{Key: "7", Value: "x"}, {Key: "k", Value: int32(1)}}}}},
+				{{Key: "s", Value: bson.A{bson.D{{Key: "k", Value: int32(1)}}, bson.D{{Key: "k", Value: int32(2)}}}}},
+				{{Key: "s", Value: bson.D{{Key: "2024", Value: int32(12)}}}},
+				{{Key: "t", Value: bson.D{{Key: "s", Value: bson.A{bson.D{{Key: "2024", Value: int32(12)}}, bson.D{{Key: "9", Value: int32(12)}}}}}}},
+			}
+			for _, d := range docs {
+				for _, path := range []string{"s.2024", "s.2023", "s.7", "s.9", "t.s.2024", "t.s.9", "s.k"} {
+					for _, cond := range []interface{}{int32(12), int32(10), "x", bson.D{{Key: "$gte", Value: int32(11)}}, bson.D{{Key: "$ne", Value: int32(12)}}, bson.D{{Key: "$in", Value: bson.A{int32(12), "x"}}},
+						bson.D{{Key: "$exists", Value: true}}, bson.D{{Key: "$exists", Value: false}}, bson.D{{Key: "$lt", Value: int32(11)}}, bson.D{{Key: "$nin", Value: bson.A{int32(10)}}}} {
+						if !assert(d, bson.D{{Key: path, Value: cond}}, "numeric field name below an array") {
+							return
+						}
+					}
+				}
+			}
+		default:
+			s1s := []bson.D{{{Key: "bsonType", Value: "int"}}, {{Key: "minimum", Value: int32(0)}}, {{Key: "bsonType", Value: "string"}}, {{Key: "enum", Value: bson.A{int32(1), int32(5), "x"}}}}
+			s2s := []bson.D{{{Key: "maximum", Value: int32(3)}}, {{Key: "bsonType", Value: "string"}}, {{Key: "minimum", Value: int32(2)}}, {{Key: "maxLength", Value: int32(1)}}}
+			vals := []interface{}{int32(1), int32(5), int32(-1), "x", "long", 2.5, nil, bson.A{int32(1)}, bson.D{{Key: "q", Value: int32(1)}}}
+			for _, s1 := range s1s {
+				for _, s2 := range s2s {
+					both := bson.D{{Key: "$jsonSchema", Value: bson.D{{Key: "properties", Value: bson.D{{Key: "ab", Value: s1}}}, {Key: "patternProperties", Value: bson.D{{Key: "^a", Value: s2}}}}}}
+					p1 := bson.D{{Key: "$jsonSchema", Value: bson.D{{Key: "properties", Value: bson.D{{Key: "ab", Value: s1}}}}}}
+					p2 := bson.D{{Key: "$jsonSchema", Value: bson.D{{Key: "patternProperties", Value: bson.D{{Key: "^a", Value: s2}}}}}}
+					for _, v := range vals {
+						for _, d := range []bson.D{{{Key: "ab", Value: v}}, {{Key: "ab", Value: v}, {Key: "ac", Value: int32(2)}}, {{Key: "zz", Value: v}}} {
+							rb, eb, _ := lungoMatch(d, both)
+							r1, e1, _ := lungoMatch(d, p1)
+							r2, e2, _ := lungoMatch(d, p2)
+							if eb != nil || e1 != nil || e2 != nil {
+								c.Count("directed_out_of_domain", 1)
+								continue
+							}
+							c.Count("directed_asserted", 1)
+							c.Count("laws_checked", 1)
+							if rb != (r1 && r2) {
+								c.Violate("match:law:schema-keywords-conjoin", fmt.Sprintf("a $jsonSchema with properties and patternProperties gives %v, the conjunction of the two single-keyword schemas %v", rb, r1 && r2),
+									map[string]string{"doc": gen.JSON(d), "filter": gen.JSON(both)})
+								return
+							}
+						}
+					}
+				}
+			}
+		}
+	})
 }
 
 func c10Case(c *fw.Ctx, client lungo.IClient, idx int, wild bool, docs, filters []bson.D, r *fw.Rand) {
